@@ -119,7 +119,8 @@ class C05(Prop):
         d = 3 if tier == "quick" else 4
         a = cases(Opts(max_depth=d, max_names=3, binders_extra=True))
         b = cases(Opts(max_depth=d, max_names=3, binders_extra=True, reals=True))
-        return st.tuples(st.one_of(a, a, b), st.sampled_from(MODES)).map(lambda t: {"ast": t[0], "mode": t[1]})
+        pm = cases(Opts(max_depth=2, max_names=3, binders_extra=True, reals=True, deltas=True, consts=True))
+        return st.tuples(st.one_of(a, a, b, pm), st.sampled_from(MODES)).map(lambda t: {"ast": t[0], "mode": t[1]})
 
     # open known finding: lazily built Approximate leaks mangled names
     known_predicates = {
